@@ -201,7 +201,7 @@ def run(ctx):
     #     different lengths), and both blind rotations agree with X^(sum bara_i s_i) when the last rows are exercised
     from props.c04 import A_BK, A_KS
     full = [(0, 1030, 1, 2, 10, 8, 2, A_BK, A_KS), (0, 5, 2, 2, 10, 4, 4, A_BK, A_KS), (80, 0, 0, 0, 0, 0, 0, 0, 0)]
-    if thorough: full += [(0, 1024, 1, 3, 7, 8, 2, A_BK, A_KS), (0, 2050, 2, 2, 10, 2, 8, A_BK, A_KS), (128, 0, 0, 0, 0, 0, 0, 0, 0)]
+    if thorough: full += [(0, 1024, 1, 3, 7, 8, 2, A_BK, A_KS), (0, 2050, 2, 2, 10, 8, 1, A_BK, A_KS), (128, 0, 0, 0, 0, 0, 0, 0, 0)]
     for fi, f in enumerate(full):
         spec = fmt(list(f) + [ctx.seed * 10 + 7 + fi])
         g0 = ints(vlib.run_lines(exe, ['fullkey ' + spec], timeout=1800)[0]); n, k, l, B = g0[0], g0[2], g0[3], g0[4]; s = g0[7:7 + n]
